@@ -19,7 +19,7 @@ from . import common as C
 PROP = "C18"; LEVEL = "exploration"; P_TIER = True
 SCOPE = {"quick": "46 public operations (GroupBy reductions incl. transform, agg, apply/median/quantile, cumulative, rolling, shift/diff, ema with and without times and group-sorted, head/tail/nth, group_nearby_members, ratio, density, crosstab, value_counts; emas.ema) "
                   "and 32 array-level entry points (emas.ema_grouped called positionally / by keyword / with times, numba.group_* at n_threads 1 and 2, rolling_*, cum*, group_nearby_members) x each array argument (values, second of two values, boolean mask, times, second key) x length offset -2,-1,+1,+2 (for -1/+1 also with the other optional array arguments absent, and with all of them of the same wrong length) "
-                  "x key rows in {[0,0],[0,1,0],[0,0,1,1]} x keys as ndarray / pandas Series x argument as ndarray / pandas Series; pandas index of the argument in {reversed, shifted, duplicated, string labels} against keys with a default or a custom index "
+                  "x key rows in {[0,0],[0,1,0],[0,0,1,1]} x keys as ndarray / pandas Series x argument as ndarray / pandas Series; pandas index of the argument in {reversed, shifted, duplicated, string labels} against keys with a default, a custom or a 2-level (MultiIndex) row index "
                   "(or against the other pandas arguments when the keys are plain; not for numba.*, whose keys are integer codes without an index); aligned controls (all plain, all on the keys' index, pandas on index-free keys, plain on indexed keys); positional masks with positions in {-n-1,-n,-1,0,n-1,n,n+1}",
          "thorough": "as quick, plus polars / pyarrow containers for the perturbed argument and key rows [0,1,0,1,2]"}
 RULE = "a case = (operation, key rows, key container, perturbed argument, perturbation, container); distinct = distinct canonical JSON; non-trivial = a perturbation is present (the aligned controls are the trivial ones)"
@@ -194,11 +194,16 @@ def _wrap_cont(arr, cont, index=None):
 
 
 def _idx0(kk, n):
+    if kk == "pdm": return pd.MultiIndex.from_arrays([[i // 2 for i in range(n)], [10 * (i + 1) for i in range(n)]], names=["a", "b"])     # keys on a 2-level row index
     return pd.RangeIndex(n) if kk in ("pd", "np") else pd.Index([10 * (i + 1) for i in range(n)])
 
 
 def _pert_index(kind, idx0):
     L = list(idx0)
+    if isinstance(idx0, pd.MultiIndex):
+        # perm keeps the LEVELS (same label sets) and changes only the codes; shift changes one level; dup repeats the first tuple; str changes the outer level's type
+        t = {"perm": L[::-1], "shift": [(a, b + 1) for a, b in L], "dup": [L[0]] * len(L), "str": [(f"r{a}", b) for a, b in L]}[kind]
+        return pd.MultiIndex.from_tuples(t, names=idx0.names)
     if kind == "perm": return pd.Index(L[::-1])
     if kind == "shift": return pd.Index([x + 1 for x in L])
     if kind == "dup": return pd.Index([L[0]] * len(L))
@@ -212,7 +217,7 @@ def cases(tier, seed):
     def aligned():
         for name, o in OPS.items():
             for keys in pats[:2]:
-                for kk, cont in (("np", "np"), ("pd", "pd"), ("pdc", "pd"), ("np", "pdx"), ("pd", "np")):
+                for kk, cont in (("np", "np"), ("pd", "pd"), ("pdc", "pd"), ("np", "pdx"), ("pd", "np"), ("pdm", "pd")):
                     if o["ref"] in ("codes", "values") and kk != "np": continue
                     yield {"op": name, "keys": keys, "kk": kk, "arg": None, "pert": None, "cont": cont}
     def lengths(level):
@@ -236,7 +241,7 @@ def cases(tier, seed):
             if name.startswith("numba."): continue        # array-level entry points: their keys are integer codes without an index, the statement's index clause does not apply
             for arg in o["args"]:
                 for kind in IDX_KINDS:
-                    for kk in ("pd", "pdc", "np"):
+                    for kk in ("pd", "pdc", "np", "pdm"):
                         if o["ref"] in ("codes", "values") and kk != "np": continue
                         others = [x for x in o["args"] if x != arg and x != "values2"] + (["values"] if o["ref"] == "values" else [])
                         for cont in ("pd", "np"):
